@@ -20,6 +20,7 @@ import (
 // ---------- randomness source with logging and fault injection ----------
 
 type logRand struct {
+	forced  [][]byte // outputs to hand out first (prefix of each read), for adversarial randomness
 	r       *rand.Rand
 	log     []string
 	reads   int
@@ -42,6 +43,10 @@ func (l *logRand) Read(p []byte) (int, error) {
 		return n, nil
 	}
 	l.r.Read(p)
+	if len(l.forced) > 0 {
+		copy(p, l.forced[0])
+		l.forced = l.forced[1:]
+	}
 	l.log = append(l.log, hex.EncodeToString(p))
 	return len(p), nil
 }
